@@ -428,6 +428,14 @@ func ruleReceiveOrder(c *Ctx, r *Report) {
 			}
 		}
 	}
+	ruleReceivePositionOnCommit(c, r)
+}
+
+// ruleReceivePositionOnCommit (C05, C06, C15, C19): the highest accepted record number - the receive
+// position an exported state carries and a resumed connection rebuilds its replay window from - is
+// advanced only inside the commit closure of a replay marker, behind the detector's accept call:
+// a record that was not authenticated never moves it.
+func ruleReceivePositionOnCommit(c *Ctx, r *Report) {
 	// highest accepted sequence number is advanced only inside the accept closure
 	for _, s := range c.CallsToName("(*dtls.Conn).updateRemoteSequenceNumber") {
 		// ... of a replay marker: a function literal handed out by a function that asked a detector,
@@ -558,7 +566,7 @@ func ruleReplayWindow(c *Ctx, r *Report) {
 	}
 	if fn := c.need(r, rule, "dtls.effectiveReplayProtectionWindow"); fn != nil {
 		// returns the parameter when positive, else the default constant 64
-		for _, v := range []int64{-1, 0, 1, 64, 128} {
+		for _, v := range []int64{-1, 0, 1, 33, 64, 100, 128} {
 			vv := v
 			w := (&Walk{Fn: fn, Assume: func(x ssa.Value) (Val, bool) {
 				if x == ssa.Value(fn.Params[0]) {
@@ -569,14 +577,17 @@ func ruleReplayWindow(c *Ctx, r *Report) {
 			good := len(w.Returns) == 1
 			if good {
 				res := w.Returns[0].Raw[0]
+				val := w.Returns[0].Vals[0]
 				if vv <= 0 {
 					k, isC := constInt(res)
-					good = isC && k == 64
+					good = (isC && k == 64) || val == vInt(64)
 				} else {
-					good = res == ssa.Value(fn.Params[0])
+					// the configured size, or that size rounded up to the next whole word of the
+					// detector's bitmap: never a smaller window than was asked for
+					good = res == ssa.Value(fn.Params[0]) || (val.Kind == 3 && val.I >= vv && val.I < vv+64)
 				}
 			}
-			r.Check(good, rule, fmt.Sprintf("effectiveReplayProtectionWindow(%d)", vv), c.pos(fn.Pos()), "configured value if positive, else 64", "effectiveReplayProtectionWindow does not return the configured value (or 64 for non-positive input)")
+			r.Check(good, rule, fmt.Sprintf("effectiveReplayProtectionWindow(%d)", vv), c.pos(fn.Pos()), "configured value if positive (rounded up by less than one 64-bit word at most), else 64", "effectiveReplayProtectionWindow does not return the configured value (or 64 for non-positive input): the window is smaller than configured, or far larger")
 		}
 	}
 	// every option writer of the config value
